@@ -343,7 +343,7 @@ Definition wit_present_param : texpr := XFn FPresent [XParam 0].
 Lemma not_has_type_by_doc G e t : typecheck doc_table G e <> TOk t -> ~ has_type G e t.
 Proof. intros H1 H2. apply H1. apply typecheck_doc_iff_lem. assumption. Qed.
 
-Lemma typecheck_sound_complete_refuted_lem :
+Lemma expr_refuted_lem :
   exists G e t, typecheck impl_table G e = TOk t /\ ~ has_type G e t.
 Proof.
   exists G0, wit_enum_ordering, TBool. split; [reflexivity|].
